@@ -77,7 +77,24 @@ func dspChildMain() {
 	fmt.Println("OBS " + obs.String())
 }
 
+// dspRunChild runs one session in a child.  Outcomes: the observation the child printed; "dead" +
+// crash report when it died; "dead" "stalled" + goroutine dump when its watchdog saw no progress
+// (a blocked client or harness: always a failure); when the child is still making progress at the
+// overall timeout (an overloaded machine) it is asked for a dump, killed and the same input is run
+// ONCE more before "dead" "child timed out twice" is reported.
 func dspRunChild(in Fields) Fields {
+	obs, slow := dspRunChildOnce(in)
+	if slow {
+		obs2, slow2 := dspRunChildOnce(in)
+		if !slow2 {
+			return obs2
+		}
+		return F("dead", "child timed out twice", string(obs[len(obs)-1]))
+	}
+	return obs
+}
+
+func dspRunChildOnce(in Fields) (Fields, bool) {
 	exe, err := os.Executable()
 	if err != nil {
 		exe = os.Args[0]
@@ -88,14 +105,14 @@ func dspRunChild(in Fields) Fields {
 	cmd.Stdout = &out
 	cmd.Stderr = &errb
 	if err := cmd.Start(); err != nil {
-		return F("dead", "cannot-start-child: "+err.Error())
+		return F("dead", "cannot-start-child: "+err.Error()), false
 	}
 	done := make(chan error, 1)
 	timedOut := false
 	go func() { done <- cmd.Wait() }()
 	select {
 	case err = <-done:
-	case <-time.After(150 * time.Second):
+	case <-time.After(time.Duration(dspEnvSecs("DSP_CHILD_SECS", 150)) * time.Second):
 		// ask the Go runtime for a goroutine dump (lands in the crash report), then kill
 		cmd.Process.Signal(syscall.SIGQUIT)
 		select {
@@ -110,12 +127,22 @@ func dspRunChild(in Fields) Fields {
 	for _, l := range strings.Split(out.String(), "\n") {
 		if strings.HasPrefix(l, "OBS ") && err == nil {
 			if obs, perr := ParseFields(l[4:]); perr == nil {
-				return obs
+				return obs, false
 			}
 		}
 	}
-	// the process died: first lines of the crash report (panic value, goroutine)
-	rep := strings.Split(strings.TrimSpace(errb.String()), "\n")
+	dump := errb.String()
+	if len(dump) > 200000 {
+		dump = dump[:200000]
+	}
+	if strings.Contains(dump, "DSPSTALL") {
+		return F("dead", "stalled", dump), false
+	}
+	if timedOut {
+		return F("dead", "child timed out", dump), true
+	}
+	// the process died: first line of the crash report (panic value)
+	rep := strings.Split(strings.TrimSpace(dump), "\n")
 	first := ""
 	if len(rep) > 0 {
 		first = rep[0]
@@ -126,12 +153,5 @@ func dspRunChild(in Fields) Fields {
 	if len(first) > 300 {
 		first = first[:300]
 	}
-	if timedOut {
-		dump := errb.String()
-		if len(dump) > 60000 {
-			dump = dump[:60000]
-		}
-		return F("dead", "child timed out", dump)
-	}
-	return F("dead", first)
+	return F("dead", first), false
 }
